@@ -200,6 +200,7 @@ MergeKids(self, other, path, i) ==
          \* carried by that node removes the key (composed.py:315-316)
          LET c == Child(self, key)
          IN MergeKids(IF ExplicitDelete(c) THEN DelChildRaw(self, key) ELSE self, other, path, i + 1)
+    ELSE IF ~HasChild(self, key) /\ Mut("DropNewKeys") THEN MergeKids(self, other, path, i + 1)
     ELSE IF ~HasChild(self, key)
     THEN LET off == NotNewOffenders(value, kp, {}, TRUE)
          IN IF off # <<>> THEN Err("MergeError", path, off[1])
